@@ -70,7 +70,7 @@ end Res
 
 /-- ASCII lower case (identifiers are ASCII by the grammar, where it agrees with `str::to_lowercase`). -/
 def lowerChar (c : Char) : Char :=
-  if 'A'.val ≤ c.val ∧ c.val ≤ 'Z'.val then Char.ofNat (c.toNat + 32) else c
+  if 65 ≤ c.toNat ∧ c.toNat ≤ 90 then Char.ofNat (c.toNat + 32) else c
 
 def lower (s : Str) : Str := s.map lowerChar
 
@@ -468,20 +468,21 @@ def numSetter (k : Str) : Option (Nat × (Desc → Nat → Desc)) :=
   else if k = "max_diag_data_len".toList then some (u8Max, fun g v => { g with maxDiagDataLength := v })
   else none
 
-/-- `x = parse_bool(..)?` fields and the `if parse_bool(..)? { speeds |= … }` flags. -/
+/-- `x = parse_bool(..)?` fields and the `if parse_bool(..)? { speeds |= … }` flags (the flag becomes
+`old || v`). -/
 def boolSetter (k : Str) : Option (Desc → Bool → Desc) :=
   if k = "fail_safe".toList then some fun g v => { g with failSafe := v }
-  else if k = "9.6_supp".toList then some fun g v => if v then { g with speeds := { g.speeds with b9600 := true } } else g
-  else if k = "19.2_supp".toList then some fun g v => if v then { g with speeds := { g.speeds with b19200 := true } } else g
-  else if k = "31.25_supp".toList then some fun g v => if v then { g with speeds := { g.speeds with b31250 := true } } else g
-  else if k = "45.45_supp".toList then some fun g v => if v then { g with speeds := { g.speeds with b45450 := true } } else g
-  else if k = "93.75_supp".toList then some fun g v => if v then { g with speeds := { g.speeds with b93750 := true } } else g
-  else if k = "187.5_supp".toList then some fun g v => if v then { g with speeds := { g.speeds with b187500 := true } } else g
-  else if k = "500_supp".toList then some fun g v => if v then { g with speeds := { g.speeds with b500000 := true } } else g
-  else if k = "1.5m_supp".toList then some fun g v => if v then { g with speeds := { g.speeds with b1500000 := true } } else g
-  else if k = "3m_supp".toList then some fun g v => if v then { g with speeds := { g.speeds with b3000000 := true } } else g
-  else if k = "6m_supp".toList then some fun g v => if v then { g with speeds := { g.speeds with b6000000 := true } } else g
-  else if k = "12m_supp".toList then some fun g v => if v then { g with speeds := { g.speeds with b12000000 := true } } else g
+  else if k = "9.6_supp".toList then some fun g v => { g with speeds := { g.speeds with b9600 := g.speeds.b9600 || v } }
+  else if k = "19.2_supp".toList then some fun g v => { g with speeds := { g.speeds with b19200 := g.speeds.b19200 || v } }
+  else if k = "31.25_supp".toList then some fun g v => { g with speeds := { g.speeds with b31250 := g.speeds.b31250 || v } }
+  else if k = "45.45_supp".toList then some fun g v => { g with speeds := { g.speeds with b45450 := g.speeds.b45450 || v } }
+  else if k = "93.75_supp".toList then some fun g v => { g with speeds := { g.speeds with b93750 := g.speeds.b93750 || v } }
+  else if k = "187.5_supp".toList then some fun g v => { g with speeds := { g.speeds with b187500 := g.speeds.b187500 || v } }
+  else if k = "500_supp".toList then some fun g v => { g with speeds := { g.speeds with b500000 := g.speeds.b500000 || v } }
+  else if k = "1.5m_supp".toList then some fun g v => { g with speeds := { g.speeds with b1500000 := g.speeds.b1500000 || v } }
+  else if k = "3m_supp".toList then some fun g v => { g with speeds := { g.speeds with b3000000 := g.speeds.b3000000 || v } }
+  else if k = "6m_supp".toList then some fun g v => { g with speeds := { g.speeds with b6000000 := g.speeds.b6000000 || v } }
+  else if k = "12m_supp".toList then some fun g v => { g with speeds := { g.speeds with b12000000 := g.speeds.b12000000 || v } }
   else if k = "freeze_mode_supp".toList then some fun g v => { g with freezeModeSupported := v }
   else if k = "sync_mode_supp".toList then some fun g v => { g with syncModeSupported := v }
   else if k = "auto_baud_supp".toList then some fun g v => { g with autoBaudSupported := v }
